@@ -13,6 +13,7 @@ use object::array::Array;
 use object::file::FileHandle;
 use object::func::CompiledFunction;
 use object::Object;
+use parser::ast::stmt::Statement;
 use parser::ast::Program;
 use parser::*;
 use repl::prompt;
@@ -89,6 +90,7 @@ pub fn run_prompt(args: Vec<String>) {
                     }
                 };
 
+                let echo = ends_with_expr_stmt(&program);
                 // a line rejected by the compiler must leave no bindings behind
                 let saved = (symtab.clone(), constants.clone());
                 let mut compiler = Compiler::new_with_state(symtab, constants);
@@ -110,8 +112,8 @@ pub fn run_prompt(args: Vec<String>) {
                 }
                 // Get the object at the top of the VM's stack
                 let stack_elem = vm.last_popped();
-                // print last popped element if it is not null
-                if !matches!(stack_elem.as_ref(), Object::Null) {
+                // print the value of the final expression statement if it is not null
+                if echo && !matches!(stack_elem.as_ref(), Object::Null) {
                     println!("{}", stack_elem);
                 }
                 globals = vm.globals;
@@ -155,6 +157,7 @@ pub fn run_buf(buf: String, args: Vec<String>, cmd_mode: bool, skip_pcap: bool) 
         None => return,
     };
 
+    let echo = ends_with_expr_stmt(&program);
     let mut compiler = Compiler::new();
     if let Err(e) = compiler.compile(program) {
         eprintln!("{}", e);
@@ -170,14 +173,15 @@ pub fn run_buf(buf: String, args: Vec<String>, cmd_mode: bool, skip_pcap: bool) 
     let mut vm = VM::new_with_global_store(bytecode, globals);
     init_builtin_vars(&vm, args);
     let err = vm.run();
+    let failed = err.is_err();
     if let Err(err) = err {
         eprintln!("{}", err);
     }
 
-    if cmd_mode && !filter_mode {
+    if cmd_mode && !filter_mode && echo && !failed {
         // Get the object at the top of the VM's stack
         let stack_elem = vm.last_popped();
-        // print last popped element if it is not null
+        // print the value of the final expression statement if it is not null
         if !matches!(stack_elem.as_ref(), Object::Null) {
             println!("{}", stack_elem);
         }
@@ -292,6 +296,12 @@ fn run_filters(
             }
         }
     }
+}
+
+/// Only the value of a final expression statement is echoed in command mode
+/// and in the REPL; other statements leave internal values on the stack.
+fn ends_with_expr_stmt(program: &Program) -> bool {
+    matches!(program.statements.last(), Some(Statement::Expr(_)))
 }
 
 fn parse_program(source: &str) -> Option<Program> {
